@@ -20,7 +20,7 @@ RULE = ("datasets are built by the library's own MazeDataset.generate for every 
         "explicit formats in memory and through a real .zanj file, through save/read under 2-3 thresholds out of "
         "{None,-1,0,1,len-1,len,len+1,100}, and the loaders run under a load-time threshold out of {None,-1,1,100}. Collections: 1-4 "
         "members (some empty) x thresholds, in memory and through a file. non-trivial = a successful round trip of a dataset with >= 1 "
-        "maze; distinct = distinct (dataset content, format/threshold route); later additions: MazeDataset.load(ds.serialize()) under every threshold (in memory, next to save/read), collections built by generate / loaded twice, many-maze and sharded datasets, datasets that came back from a load and were rearranged by their owner (reverse, shuffle, swap, thin, in place) before being written again in every format")
+        "maze; distinct = distinct (dataset content, format/threshold route); later additions: MazeDataset.load(ds.serialize()) under every threshold (in memory, next to save/read), collections built by generate / loaded twice, many-maze and sharded datasets, datasets that came back from a load and were rearranged by their owner (reverse, shuffle, swap, thin, in place) before being written again in every format, list-valued generator arguments in hand-written configurations, the same serialized data loaded twice with the first result edited (list level) in between")
 ASSUMPTIONS = [
     "domain of the round trip in the minimal formats: the dataset has collected metadata or every maze carries generation_meta; a dataset "
     "with neither is refused by the code's own assertion (modelled and checked as the AssertionError branch, theorem C05_minimal_needs_meta), "
